@@ -5,8 +5,8 @@ import connlane as L
 MC = {"quick": [("mc-noleak-stall", "MCLdapConn", "MCConn_c13_stall.cfg", 900, 8)],
       "thorough": [("mc-noleak", "MCLdapConn", "MCConn_c13_thorough.cfg", 3000, 12),
                    ("mc-noleak-stall", "MCLdapConn", "MCConn_c13_stall.cfg", 900, 12)]}
-PROFILES = {"quick": [("mixed", 150), ("timeouts", 150), ("plain", 100), ("stall", 150), ("drops", 100), ("aderr", 120)],
-            "thorough": [("mixed", 2500), ("timeouts", 2500), ("plain", 1000), ("long", 300), ("stall", 2500), ("drops", 1500), ("aderr", 1500)]}
+PROFILES = {"quick": [("mixed", 150), ("timeouts", 150), ("plain", 100), ("stall", 150), ("drops", 100), ("aderr", 120), ("split", 100)],
+            "thorough": [("mixed", 2500), ("timeouts", 2500), ("plain", 1000), ("long", 300), ("stall", 2500), ("drops", 1500), ("aderr", 1500), ("split", 1500)]}
 SCRIPTS = {"quick": ("GenConn_len4.cfg", 8), "thorough": ("GenConn_len5.cfg", 10)}
 RULE = ("model: NoLeak (quiescent => no ID reserved, both routing tables empty) over every interleaving of two operations incl. "
         "timeouts racing the request dequeue, abandons of finished/timed-out/in-flight operations, early finish; implementation: "
